@@ -50,7 +50,7 @@ def tokenise(b):
 class C09(Prop):
     id = 'C09'
     module = 'Cbor.Props.C09'
-    theorems = ['Props.C09.C09_fragments', 'Props.C09.C09_from_start', 'Props.C09.C09_wait_bounds', 'Props.C09.waitFor_spec',
+    theorems = ['Props.C09.C09_fragments', 'Props.C09.C09_from_start', 'Props.C09.C09_same_events', 'Props.C09.C09_equals_one_shot', 'Props.C09.C09_wait_bounds', 'Props.C09.waitFor_spec',
                 'Spec.decodeHead_need_le', 'Spec.decodeHead_error_stable', 'Lemmas.sd_spec']
     trusted_base = BASE_TRUST + [
         'the client loop (lean/Cbor/Model/StreamClient.lean) is hand-written: it is the protocol the property describes, run against the generated decoder; the harness runs the '
